@@ -1,5 +1,6 @@
 mod c14;
 mod checks;
+mod crash;
 mod exec;
 mod explore;
 mod known;
